@@ -475,29 +475,33 @@ func c01chunkKey(c *Ctx, r *Result) {
 	}
 	readerDivides := false
 	var divPos ssa.Instruction
-	instrs(rd, func(in ssa.Instruction) {
-		bo, ok := in.(*ssa.BinOp)
-		if !ok || bo.Op != token.QUO {
-			return
-		}
-		if ld, ok := isLoad(bo.Y); ok {
-			if ia, ok := ld.X.(*ssa.IndexAddr); ok && ia.X == ssa.Value(chunkDimsParam) {
-				// result stored into a Scaled element
-				for _, ref := range *bo.Referrers() {
-					if st, ok := ref.(*ssa.Store); ok {
-						if ia2, ok := st.Addr.(*ssa.IndexAddr); ok {
-							if l2, ok := isLoad(ia2.X); ok {
-								if f, _ := fieldOfAddr(l2.X); f != nil && f.Name() == "Scaled" {
-									readerDivides = true
-									divPos = in
+	// (the key decoding may live in a helper that ParseBTreeV1Node hands chunkDims to)
+	for _, sc := range scopesOf(rd, chunkDimsParam) {
+		sc := sc
+		instrs(sc.fn, func(in ssa.Instruction) {
+			bo, ok := in.(*ssa.BinOp)
+			if !ok || bo.Op != token.QUO {
+				return
+			}
+			if ld, ok := isLoad(bo.Y); ok {
+				if ia, ok := ld.X.(*ssa.IndexAddr); ok && chunkDimsParam != nil && sc.res(ia.X) == ssa.Value(chunkDimsParam) {
+					// result stored into a Scaled element
+					for _, ref := range *bo.Referrers() {
+						if st, ok := ref.(*ssa.Store); ok {
+							if ia2, ok := st.Addr.(*ssa.IndexAddr); ok {
+								if l2, ok := isLoad(ia2.X); ok {
+									if f, _ := fieldOfAddr(l2.X); f != nil && f.Name() == "Scaled" {
+										readerDivides = true
+										divPos = in
+									}
 								}
 							}
 						}
 					}
 				}
 			}
-		}
-	})
+		})
+	}
 	if chunkDimsParam == nil {
 		r.Errorf("core.ParseBTreeV1Node has no chunkDims parameter")
 		return
